@@ -23,7 +23,9 @@ type c04Outcome struct {
 	clear bool
 }
 
-func c04Render(ds []tlaval.Value) string {
+// c04Render writes the conjunction; group selects how a three-alternative
+// disjunction is parenthesised: 0 flat, 1 ((a | b) | c), 2 (a | (b | c)).
+func c04Render(ds []tlaval.Value, group int) string {
 	var parts []string
 	for _, d := range ds {
 		var alts []string
@@ -35,7 +37,19 @@ func c04Render(ds []tlaval.Value) string {
 			}
 			alts = append(alts, t)
 		}
-		parts = append(parts, "("+strings.Join(alts, " | ")+")")
+		// nesting keeps the meaning only while the outer disjunction stays unmarked (D0-D2); with a
+		// mark on the outer level the rules M2/M3 apply and the nested form means something else
+		marked := func(i int) bool { return strings.HasPrefix(alts[i], "*") }
+		switch {
+		case len(alts) == 3 && group == 1 && marked(2), len(alts) == 3 && group == 2 && marked(0):
+			parts = append(parts, "("+strings.Join(alts, " | ")+")")
+		case len(alts) == 3 && group == 1:
+			parts = append(parts, "(("+alts[0]+" | "+alts[1]+") | "+alts[2]+")")
+		case len(alts) == 3 && group == 2:
+			parts = append(parts, "("+alts[0]+" | ("+alts[1]+" | "+alts[2]+"))")
+		default:
+			parts = append(parts, "("+strings.Join(alts, " | ")+")")
+		}
 	}
 	return strings.Join(parts, " & ")
 }
@@ -155,62 +169,15 @@ func checkC04(r *kit.Run) {
 				ctxs[w] = cuecontext.New()
 			}
 			counts[w]++
-			expr := c04Render(ds)
-			var b strings.Builder
-			fmt.Fprintf(&b, "x: %s\n", expr)
-			for i, p := range c04ProbeText {
-				// probe on either side
-				if i%2 == 0 {
-					fmt.Fprintf(&b, "p%d: %s & %s\n", i+1, expr, p)
-				} else {
-					fmt.Fprintf(&b, "p%d: %s & %s\n", i+1, p, expr)
+			groups := 1
+			for _, d := range ds {
+				if len(tlaval.AsSeq(d)) == 3 {
+					groups = 3
 				}
 			}
-			v := ctxs[w].CompileString(b.String())
-			outcome := func(x tlaval.Value) c04Outcome {
-				rec := tlaval.AsRec(x)
-				return c04Outcome{tlaval.AsStr(rec["o"]), tlaval.AsStr(rec["c"]), tlaval.AsBool(rec["clear"])}
-			}
-			want := outcome(st["res"])
-			x := v.LookupPath(cue.ParsePath("x"))
-			if !x.Exists() {
-				r.Violation("compile "+expr, fmt.Sprintf("expression does not compile: %v", v.Err()), map[string]any{"expr": expr})
-				return
-			}
-			if !want.clear {
-				atomic.AddInt64(&unclear, 1)
-			} else if msg := c04Compare(x, want); msg != "" {
-				r.Violation(expr, msg, map[string]any{"expr": expr, "model": want.o + " " + want.c})
-			}
-			pres := tlaval.AsSeq(st["pres"])
-			for i := range c04ProbeText {
-				pw := outcome(pres[i])
-				pv := v.LookupPath(cue.ParsePath(fmt.Sprintf("p%d", i+1)))
-				if !pw.clear {
-					atomic.AddInt64(&unclear, 1)
-				} else if msg := c04Compare(pv, pw); msg != "" {
-					r.Violation(expr+" ## "+c04ProbeText[i], msg, map[string]any{"expr": expr, "probe": c04ProbeText[i], "model": pw.o + " " + pw.c})
-				}
-			}
-			atomic.AddInt64(&checked, int64(1+len(c04ProbeText)))
-			if want.o != "bottom" && len(ds) > 1 {
-				atomic.AddInt64(&nontrivial, 1)
-			}
-			concreteWant := want.o == "bottom" || (want.o == "unique" && (strings.HasPrefix(want.c, "atom:") || (strings.HasPrefix(want.c, "st:") && !strings.Contains(want.c, "int"))))
-			if counts[w]%1000 == 1 && want.clear && concreteWant {
-				r.Sample(map[string]any{"expr": expr, "model": want.o + " " + want.c})
-				// canary: a different expected outcome must be noticed
-				bad := want
-				switch want.o {
-				case "unique":
-					bad.o = "ambiguous"
-				default:
-					bad.o, bad.c = "unique", "atom:{\"3\"}"
-				}
-				atomic.AddInt64(&canaries, 1)
-				if c04Compare(x, bad) != "" {
-					atomic.AddInt64(&caught, 1)
-				}
+			flatBad := map[int]bool{}
+			for group := 0; group < groups; group++ {
+				c04One(r, ctxs[w], st, ds, group, flatBad, counts[w], &unclear, &checked, &nontrivial, &canaries, &caught)
 			}
 		})
 		res.Cleanup()
@@ -222,6 +189,107 @@ func checkC04(r *kit.Run) {
 	if canaries == 0 || caught != canaries {
 		r.Fatal("canary: %d of %d corrupted expectations noticed", caught, canaries)
 	}
+	c04Finish(r, total, checked, nontrivial, unclear, caught)
+}
+
+func c04One(r *kit.Run, ctx *cue.Context, st tlaval.State, ds []tlaval.Value, group int, flatBad map[int]bool, count int, unclear, checked, nontrivial, canaries, caught *int64) {
+	{
+		{
+			expr := c04Render(ds, group)
+			// a disagreement that only shows when a three-alternative disjunction is written with
+			// nested parentheses is a defect of its own class
+			report := func(idx int, key, msg string, rep map[string]any) {
+				if group == 0 {
+					flatBad[idx] = true
+					// three operands: if another order of the same operands agrees with the rules,
+					// the defect is the evaluator's dependence on operand order
+					if flatBad[-100] {
+						key = "class three-operand-order-dependent-default"
+						msg = expr + ": " + msg
+					} else if idx == -1 && len(ds) == 3 {
+						for _, perm := range [][]int{{0, 2, 1}, {1, 0, 2}, {1, 2, 0}, {2, 0, 1}, {2, 1, 0}} {
+							pds := []tlaval.Value{ds[perm[0]], ds[perm[1]], ds[perm[2]]}
+							pv := ctx.CompileString("x: " + c04Render(pds, 0)).LookupPath(cue.ParsePath("x"))
+							if pv.Exists() && c04Compare(pv, c04Outcome{tlaval.AsStr(tlaval.AsRec(st["res"])["o"]), tlaval.AsStr(tlaval.AsRec(st["res"])["c"]), true}) == "" {
+								rep["order_that_agrees"] = c04Render(pds, 0)
+								key = "class three-operand-order-dependent-default"
+								msg = expr + ": " + msg
+								flatBad[-100] = true
+								break
+							}
+						}
+					}
+				} else if flatBad[idx] {
+					return // the flat form fails too: the same defect, already reported
+				} else {
+					rep["flat_form_agrees_with_the_rules"] = true
+					key = "class nested-disjunction-default"
+					r.Add("nested_form_disagreements", 1)
+					msg = expr + ": " + msg
+				}
+				r.Violation(key, msg, rep)
+			}
+			var b strings.Builder
+			fmt.Fprintf(&b, "x: %s\n", expr)
+			for i, p := range c04ProbeText {
+				// probe on either side
+				if i%2 == 0 {
+					fmt.Fprintf(&b, "p%d: %s & %s\n", i+1, expr, p)
+				} else {
+					fmt.Fprintf(&b, "p%d: %s & %s\n", i+1, p, expr)
+				}
+			}
+			v := ctx.CompileString(b.String())
+			outcome := func(x tlaval.Value) c04Outcome {
+				rec := tlaval.AsRec(x)
+				return c04Outcome{tlaval.AsStr(rec["o"]), tlaval.AsStr(rec["c"]), tlaval.AsBool(rec["clear"])}
+			}
+			want := outcome(st["res"])
+			x := v.LookupPath(cue.ParsePath("x"))
+			if !x.Exists() {
+				r.Violation("compile "+expr, fmt.Sprintf("expression does not compile: %v", v.Err()), map[string]any{"expr": expr})
+				return
+			}
+			if !want.clear {
+				atomic.AddInt64(unclear, 1)
+			} else if msg := c04Compare(x, want); msg != "" {
+				report(-1, expr, msg, map[string]any{"expr": expr, "model": want.o + " " + want.c})
+			}
+			pres := tlaval.AsSeq(st["pres"])
+			for i := range c04ProbeText {
+				pw := outcome(pres[i])
+				pv := v.LookupPath(cue.ParsePath(fmt.Sprintf("p%d", i+1)))
+				if !pw.clear {
+					atomic.AddInt64(unclear, 1)
+				} else if msg := c04Compare(pv, pw); msg != "" {
+					report(i, expr+" ## "+c04ProbeText[i], msg, map[string]any{"expr": expr, "probe": c04ProbeText[i], "model": pw.o + " " + pw.c})
+				}
+			}
+			atomic.AddInt64(checked, int64(1+len(c04ProbeText)))
+			if want.o != "bottom" && len(ds) > 1 {
+				atomic.AddInt64(nontrivial, 1)
+			}
+			concreteWant := want.o == "bottom" || (want.o == "unique" && (strings.HasPrefix(want.c, "atom:") || (strings.HasPrefix(want.c, "st:") && !strings.Contains(want.c, "int"))))
+			if count%1000 == 1 && group == 0 && want.clear && concreteWant {
+				r.Sample(map[string]any{"expr": expr, "model": want.o + " " + want.c})
+				// canary: a different expected outcome must be noticed
+				bad := want
+				switch want.o {
+				case "unique":
+					bad.o = "ambiguous"
+				default:
+					bad.o, bad.c = "unique", "atom:{\"3\"}"
+				}
+				atomic.AddInt64(canaries, 1)
+				if c04Compare(x, bad) != "" {
+					atomic.AddInt64(caught, 1)
+				}
+			}
+		}
+	}
+}
+
+func c04Finish(r *kit.Run, total, checked, nontrivial, unclear, caught int64) {
 	_ = sort.Strings
 	r.Set("traces_validated_against_impl", int(total))
 	r.Set("evaluations", int(checked))
